@@ -25,6 +25,13 @@ var c06Tree = []string{
 	"a.a.example.org", "b.a.example.org", "c.b.example.org",
 	"a.a.a.example.org", "b.a.a.example.org", "c.b.a.example.org",
 	"other.test", "a.other.test", "b.a.other.test", "c.other.test",
+	// Names that end with the characters of a wildcard's apex without a label
+	// boundary in front of them: "*.example.org" must not match
+	// "xexample.org" or "a.xexample.org", "*.a.example.org" must not match
+	// "xa.example.org" (which "*.example.org" does match), "*.org" must not
+	// match "xorg".  The apexes themselves (example.org, a.example.org,
+	// other.test) are above.
+	"xexample.org", "a.xexample.org", "xa.example.org", "xother.test", "b.xother.test", "xorg",
 }
 
 // Names that are only ever CNAME targets: some are covered by wildcards of
@@ -298,6 +305,14 @@ func c06Scripted() [][]c06Entry {
 		e("a.example.org", "AAAA", "a.example.org", "A"),
 		e("a.example.org", "fd00::1", "*.example.org", "10.0.0.1"),
 		e("a.example.org", "ext.invalid", "ext.invalid", "10.0.0.1"),
+		// Label boundary of wildcards: names glued to the apex, the apex
+		// itself, as queried names and as CNAME targets.
+		e("*.example.org", "10.0.0.1", "*.other.test", "fd00::1", "*.org", "AAAA"),
+		e("*.a.example.org", "10.0.0.3", "*.example.org", "fd00::1", "*.org", "10.0.0.4"),
+		e("a.example.org", "xexample.org", "b.example.org", "a.xexample.org", "c.example.org", "example.org", "*.example.org", "10.0.0.2"),
+		e("other.test", "XOTHER.TEST", "a.other.test", "b.xother.test", "*.other.test", "10.0.0.2", "*.OTHER.TEST", "fd00::2"),
+		e("*.example.org", "xorg", "*.org", "10.0.0.1"),
+		e("xexample.org", "a.example.org", "*.example.org", "10.0.0.1", "*.xexample.org", "10.0.0.2"),
 		// Canonical names spelled with upper-case letters: a pair, a cycle
 		// entered from outside (media -> NAS -> Storage -> NAS), cycles made
 		// of capitalised targets only, mixed ones, chains into wildcards.
